@@ -119,13 +119,16 @@ class CSSStyleSheet(cssutils.stylesheets.StyleSheet):
     def _getUsedURIs(self):
         "Return set of URIs used in the sheet."
         useduris = set()
-        for r1 in self:
-            if r1.STYLE_RULE == r1.type:
-                useduris.update(r1.selectorList._getUsedUris())
-            elif r1.MEDIA_RULE == r1.type:
-                for r2 in r1:
-                    if r2.type == r2.STYLE_RULE:
-                        useduris.update(r2.selectorList._getUsedUris())
+
+        def collect(rules):
+            for rule in rules:
+                if rule.STYLE_RULE == rule.type:
+                    useduris.update(rule.selectorList._getUsedUris())
+                elif rule.MEDIA_RULE == rule.type:
+                    # @media rules may be nested
+                    collect(rule)
+
+        collect(self)
         return useduris
 
     @property
